@@ -519,6 +519,157 @@ static void invalidRun(int run, long long attempt, const Circuit &base) {
   }
 }
 
+
+// ---- "api" scenario: a random history of the public mutators of Circuit with logged arguments.  The specification computes
+// the state each call must leave (PlaceAPI.ApiEffect) and whether it must be refused (ApiValid); the harness only reports.
+static Value ints(const std::vector<int> &v) { return Value::from(v); }
+static void apiRun(int run, const Circuit &base, vg::Rng &r) {
+  Circuit c = base;
+  int steps = (int)r.in(8, 16);
+  static const std::vector<std::string> kinds = {"setCellX", "setCellY", "setCellWidth", "setCellHeight", "setCellIsFixed", "setCellIsObstruction",
+                                                 "setCellOrientation", "setCellRowPolarity", "setSolution", "setNetWeights", "addNet", "setNets",
+                                                 "setRows", "setupRows"};
+  static const std::vector<CellOrientation> all8 = {CellOrientation::N, CellOrientation::S, CellOrientation::W, CellOrientation::E,
+                                                    CellOrientation::FN, CellOrientation::FS, CellOrientation::FW, CellOrientation::FE};
+  static const std::vector<CellRowPolarity> pols = {CellRowPolarity::ANY, CellRowPolarity::SAME, CellRowPolarity::OPPOSITE, CellRowPolarity::NW,
+                                                    CellRowPolarity::SE};
+  for (int st = 0; st < steps; ++st) {
+    int n = c.nbCells();
+    std::string kind = r.pick(kinds);
+    // vector length: mostly right, sometimes one short / one long / empty
+    auto len = [&](int ref) { return r.chance(0.8) ? ref : (int)r.pick(std::vector<int>{std::max(0, ref - 1), ref + 1, 0, ref + 3}); };
+    Value arg = Value::object();
+    std::string outcome = "ok", what;
+    try {
+      if (kind == "setCellX" || kind == "setCellY" || kind == "setCellWidth" || kind == "setCellHeight") {
+        std::vector<int> v(len(n));
+        bool size = kind == "setCellWidth" || kind == "setCellHeight";
+        for (int &e : v) e = (int)(size ? r.in(0, 9) : r.in(-30, 60));
+        arg.set("v", ints(v));
+        if (kind == "setCellX") c.setCellX(v);
+        else if (kind == "setCellY") c.setCellY(v);
+        else if (kind == "setCellWidth") c.setCellWidth(v);
+        else c.setCellHeight(v);
+      } else if (kind == "setCellIsFixed" || kind == "setCellIsObstruction") {
+        std::vector<bool> v(len(n));
+        for (size_t i = 0; i < v.size(); ++i) v[i] = r.chance(0.4);
+        arg.set("v", Value::fromBools(v));
+        if (kind == "setCellIsFixed") c.setCellIsFixed(v);
+        else c.setCellIsObstruction(v);
+      } else if (kind == "setCellOrientation") {
+        std::vector<CellOrientation> v(len(n));
+        Value names = Value::array();
+        for (auto &e : v) {
+          e = r.pick(all8);
+          names.push(vp::orientName(e));
+        }
+        arg.set("v", names);
+        c.setCellOrientation(v);
+      } else if (kind == "setCellRowPolarity") {
+        std::vector<CellRowPolarity> v(len(n));
+        Value names = Value::array();
+        for (auto &e : v) {
+          e = r.pick(pols);
+          names.push(vp::polName(e));
+        }
+        arg.set("v", names);
+        c.setCellRowPolarity(v);
+      } else if (kind == "setSolution") {
+        PlacementSolution sol;
+        Value pl = Value::array();
+        int m = len(n);
+        for (int i = 0; i < m; ++i) {
+          CellOrientation o = r.pick(all8);
+          int x = (int)r.in(-30, 60), y = (int)r.in(-30, 60);
+          sol.emplace_back(x, y, o);
+          pl.push(Value::object().set("x", x).set("y", y).set("o", vp::orientName(o)));
+        }
+        arg.set("v", pl);
+        c.setSolution(sol);
+      } else if (kind == "setNetWeights") {
+        std::vector<float> w(len(c.nbNets()));
+        Value bits = Value::array();
+        for (float &e : w) {
+          e = (float)r.in(1, 12) * 0.25f;
+          bits.push(vp::floatBits(e));
+        }
+        arg.set("v", bits);
+        c.setNetWeights(w);
+      } else if (kind == "addNet") {
+        int deg = (int)r.in(0, 4);
+        std::vector<int> cells(deg), dx(r.chance(0.9) ? deg : deg + 1), dy(r.chance(0.9) ? deg : std::max(0, deg - 1));
+        for (int &e : cells) e = r.chance(0.9) ? (int)r.in(0, n - 1) : (int)r.pick(std::vector<int>{-1, n, n + 5});
+        for (int &e : dx) e = (int)r.in(-2, 9);
+        for (int &e : dy) e = (int)r.in(-2, 9);
+        float w = (float)r.in(1, 12) * 0.25f;
+        std::vector<int> cells1 = cells;
+        for (int &e : cells1) e += 1;
+        arg.set("cells", ints(cells1)).set("dx", ints(dx)).set("dy", ints(dy)).set("wt", vp::floatBits(w));
+        c.addNet(cells, dx, dy, w);
+      } else if (kind == "setNets") {
+        int nn = (int)r.in(0, 3);
+        std::vector<int> lim = {0}, cells, dx, dy;
+        for (int k = 0; k < nn; ++k) {
+          int deg = (int)r.in(0, 3);
+          for (int j = 0; j < deg; ++j) {
+            cells.push_back(r.chance(0.95) ? (int)r.in(0, n - 1) : (int)r.pick(std::vector<int>{-1, n}));
+            dx.push_back((int)r.in(-2, 9));
+            dy.push_back((int)r.in(-2, 9));
+          }
+          lim.push_back((int)cells.size());
+        }
+        int flaw = r.chance(0.75) ? 0 : (int)r.in(1, 5);
+        if (flaw == 1) lim[0] = 1;
+        if (flaw == 2) lim.back() += 1;
+        if (flaw == 3) dx.push_back(0);
+        if (flaw == 4 && lim.size() > 2) std::swap(lim[1], lim[2]);
+        if (flaw == 5) lim.clear();
+        std::vector<float> w;
+        Value bits = Value::array();
+        int wl = r.chance(0.4) ? 0 : (r.chance(0.85) ? nn : nn + 1);
+        for (int k = 0; k < wl; ++k) {
+          w.push_back((float)r.in(1, 12) * 0.25f);
+          bits.push(vp::floatBits(w.back()));
+        }
+        std::vector<int> cells1 = cells;
+        for (int &e : cells1) e += 1;
+        arg.set("lim", ints(lim)).set("cells", ints(cells1)).set("dx", ints(dx)).set("dy", ints(dy)).set("w", bits);
+        c.setNets(lim, cells, dx, dy, w);
+      } else if (kind == "setRows") {
+        std::vector<Row> rows;
+        Value rj = Value::array();
+        int nr = (int)r.in(0, 4);
+        for (int k = 0; k < nr; ++k) {
+          int x0 = (int)r.in(-10, 10), y0 = (int)r.in(-2, 4) * 4;
+          CellOrientation o = r.pick(std::vector<CellOrientation>{CellOrientation::N, CellOrientation::FS, CellOrientation::S, CellOrientation::FN});
+          rows.emplace_back(x0, x0 + (int)r.in(4, 40), y0, y0 + 4, o);
+          rj.push(Value::object().set("x0", rows.back().minX).set("x1", rows.back().maxX).set("y0", y0).set("y1", y0 + 4).set("o", vp::orientName(o)));
+        }
+        arg.set("rows", rj);
+        c.setRows(rows);
+      } else {
+        int x0 = (int)r.in(-10, 10), y0 = (int)r.in(-10, 10), w = (int)r.in(0, 40), hh = (int)r.in(0, 30);
+        int rh = (int)r.pick(std::vector<int>{1, 2, 3, 4, 7, 0, -2});
+        bool alt = r.chance(0.5), init = r.chance(0.5);
+        arg.set("x0", x0).set("x1", x0 + w).set("y0", y0).set("y1", y0 + hh).set("h", rh).set("alt", alt).set("init", init);
+        c.setupRows(Rectangle(x0, x0 + w, y0, y0 + hh), rh, alt, init);
+      }
+    } catch (std::exception &ex) {
+      outcome = "error";
+      what = ex.what();
+    }
+    Value e = vt::ev("Api");
+    Value pw = Value::array(), ph = Value::array();
+    for (int i = 0; i < c.nbCells(); ++i) {
+      pw.push(c.placedWidth(i));
+      ph.push(c.placedHeight(i));
+    }
+    e.set("run", run).set("step", st).set("kind", kind).set("arg", arg).set("outcome", outcome).set("what", what);
+    e.set("circ", vp::circuitToJson(c)).set("wl", c.hpwl()).set("pw", pw).set("ph", ph);
+    vt::emit(e);
+  }
+}
+
 static long long nbInvalidAttempts() { return 59 + 48 + kNbFields * 6 + 11 * 3 + 12; }
 
 int main(int argc, char **argv) {
@@ -570,6 +721,7 @@ int main(int argc, char **argv) {
     if (base.nbCells() < 2) continue;
     vt::forked((int)k, timeout, errPath, [&] {
       if (scen == "proto") protoRun((int)k, base, r);
+      else if (scen == "api") apiRun((int)k, base, r);
       else invalidRun((int)k, k, base);
     }, scen.c_str());
   }
